@@ -99,6 +99,10 @@ func readPointsFromIO(data io.ReadCloser, points chan<- edge.PointMessage, preci
 		if err != nil {
 			return err
 		}
+		if len(mps) == 0 {
+			// blank line or comment: the parser returns neither a point nor an error
+			return fmt.Errorf("invalid replay file format, expected a point, got %q", in.Text())
+		}
 		mp := mps[0]
 
 		mpfields, err := mp.Fields()
